@@ -93,6 +93,11 @@ def main(argv=None):
     a = ap.parse_args(argv)
     seed = int(os.environ.get('VERIF_SEED', '0') or 0)
     sys.setrecursionlimit(20000)
+    if a.property == 'ALL':
+        # tool mode: which properties would report a violation (one analysis for all of them)
+        import json
+        print(json.dumps(props.fired_all(a.tier), indent=1))
+        return 0
     if a.replay:
         return props.replay(a.property, a.replay)
     return props.run_check(a.property, a.tier, seed)
